@@ -83,6 +83,8 @@ def to_lines(sim):
                 lines.append("env " + what)
             elif what == "cancel":
                 lines.append("cancel %d" % tmap[e[3]])
+            # "drop" and "trunc" (only the first bytes of a report arrive, then silence) produce no line: for the
+            # model, which has no byte-level receive parser, both are a report that is never delivered
         elif who == "drv":
             if what == "cb":
                 lines.append("cb " + e[3])
